@@ -58,3 +58,27 @@ func NewRequest(id string, priority float64, clock clock.Clock) *Request {
 		isProcessed:  false,
 	}
 }
+
+// tryRelease hands the window slot to the waiting request unless it already gave up (TTL).
+// It does not need the waiter to be parked on doneCh yet.
+func (r *Request) tryRelease() bool {
+	r.processMutex.Lock()
+	defer r.processMutex.Unlock()
+	if r.isProcessed {
+		return false
+	}
+	r.isProcessed = true
+	close(r.doneCh)
+	return true
+}
+
+// giveUp marks the request as timed out unless it was released in the meantime.
+func (r *Request) giveUp() bool {
+	r.processMutex.Lock()
+	defer r.processMutex.Unlock()
+	if r.isProcessed {
+		return false
+	}
+	r.isProcessed = true
+	return true
+}
